@@ -3,7 +3,7 @@
 seeded/<name>/meta.json and seeded/INDEX.md. Uses py/mutcheck.sh (private copy of /verif, scratch worktree of /repo)."""
 import json, os, re, subprocess, sys
 ROOT = os.path.dirname(os.path.dirname(os.path.abspath(__file__)))
-EXTRA = {"C04-2": ["C09"], "C03-1": ["C13"], "C02-3": ["C10"], "C02-7": ["C09"], "C20-7": ["C04"], "C10-10": ["C09"], "C04-12": ["C19"], "C02-14": ["C09"], "C05-13": ["C09"], "C08-15": ["C09"], "C10-16": ["C09"], "C14-18": ["C19"], "C18-18": ["C09"], "C20-17": ["C09"], "C20-18": ["C09"], "C11-19": ["C02"], "C20-19": ["C07"], "C01-20": ["C02"]}
+EXTRA = {"C04-2": ["C09"], "C03-1": ["C13"], "C02-3": ["C10"], "C02-7": ["C09"], "C20-7": ["C04"], "C10-10": ["C09"], "C04-12": ["C19"], "C02-14": ["C09"], "C05-13": ["C09"], "C08-15": ["C09"], "C10-16": ["C09"], "C14-18": ["C19"], "C18-18": ["C09"], "C20-17": ["C09"], "C20-18": ["C09"], "C11-19": ["C02"], "C20-19": ["C07"], "C01-20": ["C02"], "C03-20": ["C09"]}
 names = sorted(d for d in os.listdir(os.path.join(ROOT, "seeded")) if os.path.isdir(os.path.join(ROOT, "seeded", d)))
 if len(sys.argv) > 1:
     names = [n for n in names if n in sys.argv[1:]]
